@@ -124,7 +124,11 @@ func (w *World) BuildEvent(chain string, ev Act) (mhubtypes.ExternalEvent, error
 	tok := w.ExtTokenId(chain, ev.S("tok"))
 	txh := ""
 	if ev.Has("txh") {
-		txh = w.N.ExtHash(ev.S("txh"))
+		if t := ev.S("txh"); strings.HasPrefix(t, "raw:") {
+			txh = t[4:] // literal value (possibly empty)
+		} else {
+			txh = w.N.ExtHash(t)
+		}
 	}
 	switch ev.S("t") {
 	case "Deposit":
